@@ -263,6 +263,25 @@ def run(x):
     g = G([x, 1])
     return [g.cp(), g.cp(deep=True), g.cp(deep=0)]
 '''),
+    ("N16 keyword dicts", "kwargs_dicts_inlined", '''
+def mk(a, k=1, m=2, z=0):
+    return (a, k, m, z)
+def run(x):
+    kw = {"k": x + 1, "m": x * 2}
+    r = mk(x, **kw)
+    s = mk(x, z=5, **{"m": 7})
+    return [r, s]
+'''),
+    ("N17 pure arithmetic local", "pure_locals_propagated", '''
+import math
+def box(n, width):
+    half = 0.5 * math.pi
+    cols = width + 1
+    rows = [[0] * cols for _ in range(n)]
+    return (half, -half, len(rows[0]), cols * 2)
+def run(x):
+    return box(2, x % 5)
+'''),
 ]
 
 
